@@ -33,7 +33,7 @@ def validate_tokenizer(ctx, workers):
     res = c09.tlc_full(ctx, "PrinterMC", "Printer_lex.cfg", env=dict(OUT=out), workers=workers, timeout=600, heap="4g")
     if not res.ok:
         raise Infra("Printer_lex.cfg failed: " + res.trace_text()[:500])
-    rows = vt.read_ndjson(out)
+    rows = ppcase.xch(vt.read_ndjson(out))      # extended characters: stand-ins -> the real characters
     if len(rows) < 40000:
         raise Infra("Lexer.tla emitted only %d texts" % len(rows))
     bad = [r for r in rows if pptok.lex(r["text"]) != r["toks"]]
@@ -114,10 +114,19 @@ def corpus(ctx, tree, files):
 
     def one(src):
         b = os.path.basename(src)
-        e1 = sh([cc] + inc + ["-E", src])
-        s0 = sh([cc] + inc + ["-S", "-o", "-", src])
-        if e1 is None or s0 is None:
-            return (b, "timeout", "")
+        # __TIME__/__DATE__ make the translation depend on the clock: s0 is compared with the
+        # compilation of e1's output, so both must see the same second.  Bracket s0 between two
+        # -E runs and repeat until they agree (the clock did not tick in between).
+        for attempt in range(6):
+            e1 = sh([cc] + inc + ["-E", src])
+            s0 = sh([cc] + inc + ["-S", "-o", "-", src])
+            e1b = sh([cc] + inc + ["-E", src])
+            if e1 is None or s0 is None or e1b is None:
+                return (b, "timeout", "")
+            if e1.returncode or e1b.returncode or e1.stdout == e1b.stdout:
+                break
+        else:
+            return (b, "unstable", "")
         if e1.returncode or s0.returncode:
             return (b, "skip", "")            # not a valid program for this tree: nothing to compare
         f1 = os.path.join(d, b[:-2] + ".i.c")
@@ -143,6 +152,8 @@ def corpus(ctx, tree, files):
         ctx.note_case("corpus:" + b, nontrivial=st == "ok" and info > 0)
         if st == "timeout":
             raise Infra("corpus file %s: timeout" % b)
+        if st == "unstable":
+            raise Infra("corpus file %s: -E output changes from run to run (clock-dependent macro) six times in a row" % b)
         if st in ("idempotence", "not-a-program", "asm"):
             ctx.report("corpus:%s:%s" % (st, b), "%s: %s" % (b, info), case=dict(kind="corpus", file=b))
         if st == "ok":
@@ -178,7 +189,7 @@ def run(ctx):
     chib, gcc = c09.tools(ctx, tree)
     ctx.phase("build done")
     jobs = []
-    for fam, stride in (("P", 7 if q else 1), ("PT", 11 if q else 1), ("PS", 1)):
+    for fam, stride in (("P", 11 if q else 1), ("PT", 13 if q else 1), ("PS", 1)):
         cfg = ctx.cfg("pp", "Macro_gen.cfg", Family='"%s"' % fam, Stride=stride, Seed=ctx.seed % stride)
         cfg2 = cfg[:-4] + "-inv.cfg"
         open(cfg2, "w").write(open(cfg).read().replace("StandardExamples", "PrintedFaithful"))
